@@ -62,6 +62,7 @@ class Unit:
         self.okfns = {}      # gname -> ok gname
         self.out = []        # emitted Gallina text
         self.defaults = {}   # default trait methods: name -> lambda(tr, args)
+        self.structs = {}    # C18: opaque struct types: rust name -> {'gtype': str, 'methods': {name: (gallina fn, type)}}
 
     def rtype(self, t):
         k = t[0]
@@ -75,6 +76,8 @@ class Unit:
                 return ELEM
             if n == "Self::PositiveInteger":
                 return self.posint
+            if n in self.structs:
+                return ("struct", n, self.structs[n]["gtype"])
             if n.startswith("Result<") or n.startswith("Option<"):
                 inner = n[n.index("<") + 1:]
                 inner = inner.split(",")[0].rstrip(">")
@@ -118,6 +121,7 @@ class FnTr:
         self.tmp = 0
         self.binds = []      # hoisted option binds for the current statement
         self.cgen = {}
+        self.litdef = None   # type given to unsuffixed literals with no expectation (per-fn option)
 
     # ------------------------------------------------------------------ helpers
     def fresh(self, base="t"):
@@ -151,7 +155,7 @@ class FnTr:
         if k == "num":
             v, suf = parse_num(e[1])
             if suf is None:
-                suf = expect if (expect and is_int(expect)) else LIT
+                suf = expect if (expect and is_int(expect)) else (self.litdef or LIT)
             return z(v), suf
         if k == "path":
             return self.path(e, env, expect)
@@ -238,6 +242,8 @@ class FnTr:
         if name in ("true", "false"):
             return ("lit", name), BOOL
         base = name.split("::")[-1]
+        if self.ring and name in ("Self::ZERO", "Self::ONE", self.u.elem_name + "::ZERO", self.u.elem_name + "::ONE"):
+            return ("lit", "(O.(fzero))" if base == "ZERO" else "(O.(fone))"), ELEM
         if name in self.u.consts:
             g, t = self.u.consts[name]
             return ("var", g), t
@@ -411,9 +417,22 @@ class FnTr:
             return ("some", g), ("option", t)
         if name == "Err":
             return ("none",), expect if expect else ("option", None)
+        if name in ("cmp::min", "cmp::max", "core::cmp::min", "core::cmp::max") and len(args) == 2:
+            ga, ta = self.expr(args[0], env, expect)
+            gb, tb = self.expr(args[1], env, ta if ta != LIT else expect)
+            if ta == LIT and tb != LIT:
+                ga, ta = self.expr(args[0], env, tb)
+            if tb == LIT:
+                tb = ta
+            if not (is_int(ta) and ta == tb):
+                raise Unsupported(f"{name} on {ta} and {tb}")
+            return ("app", "Z." + name.split("::")[-1], [ga, gb]), ta
         if name in (f"Self::from_mont", f"{en}::from_mont"):
             g, t = self.expr(args[0], env, self.u.elem_inner)
             return g, ELEM
+        if name == "Self::PositiveInteger::from":
+            g, t = self.expr(args[0], env, None)
+            return g, self.u.posint
         if name.split("::")[0] in INT_NAMES and name.endswith("::from"):
             to = INT_NAMES[name.split("::")[0]]
             g, t = self.expr(args[0], env, None)
@@ -460,6 +479,12 @@ class FnTr:
         g, t = self.expr(recv, env, None)
         if t == LIT and name in ("wrapping_sub", "wrapping_add"):
             raise Unsupported("method on untyped literal")
+        if t[0] == "struct":
+            acc = self.u.structs[t[1]]["methods"].get(name)
+            if acc is None or args:
+                raise Unsupported(f"accessor {name} on struct {t[1]}")
+            rt = acc[1] if not isinstance(acc[1], str) else self.u.rtype(("name", acc[1]))
+            return ("app", acc[0], [g]), rt
         if t == ELEM:
             if name in ("inner",):
                 return g, self.u.elem_inner
@@ -869,4 +894,6 @@ def gtype(t, ring=False):
         return "(" + " * ".join([gtype(t[1], ring)] * t[2]) + ")"
     if k == "option":
         return "(option " + gtype(t[1], ring) + ")"
+    if k == "struct":
+        return t[2]
     raise Unsupported(f"gtype {t}")
